@@ -185,7 +185,7 @@ theorem resolve_error {C : ClassInfo} {S : List Spec} {e : Err} (h : resolve C S
 theorem assignPhase_error {C : ClassInfo} {S : List Spec} {e : Err} (h : assignPhase C S = .error e) :
     (e = .dupName ∧ ¬ (S.map (·.name)).Nodup) ∨
     ((S.map (·.name)).Nodup ∧ ∃ e', normalPass C.finals (normalOf S) ⟨[], []⟩ = .error e' ∧ e = e') ∨
-    ((S.map (·.name)).Nodup ∧ e = .modifiedTwice) := by
+    ((S.map (·.name)).Nodup ∧ (e = .modifiedTwice ∨ e = .finalProp)) := by
   unfold assignPhase at h
   split at h
   · rename_i hd
@@ -220,7 +220,7 @@ theorem dup_name_reported (C : ClassInfo) (S : List Spec) :
       · exact hn
       · have := normalPass_error_stage _ (normalOf_normal S) he
         simp [stage] at this
-      · cases h3
+      · rcases h3 with h3 | h3 <;> cases h3
     · have := orderPhase_error_stage ho
       simp [stage] at this
 
@@ -240,15 +240,9 @@ theorem stage2_defect (C : ClassInfo) (S : List Spec)
       · right; left; rfl
       · right; right; rfl
 
-/-- **Final properties.** Directly specifying a derived (final) property with a non-modifying
-specifier is always an error.
-
-Partial: the statement the property asks for has no hypothesis `hsm` --
-`theorem final_reported (C S) (s ∈ S) ((p, k) ∈ s.prios) (p ∈ C.finals) : ∃ e, resolve C S = .error e ∧ ...` --
-and is false of the code as it is: the modifying pass of `_resolveSpecifiers` has no `prop in finals` check, so a
-modifying specifier (`on`) may specify a final property (`final_by_modifier_unreported_witness`; known finding
-`final-specified-by-modifying-specifier`, proposed repair notes/fixes/C06-final-modifying-specifier.diff). -/
-theorem final_reported_partial (C : ClassInfo) (S : List Spec) (s : Spec) (hs : s ∈ S) (hsm : s.modifying = false)
+/-- **Final properties (non-modifying specifier).** Directly specifying a derived (final) property with a
+non-modifying specifier is always an error of the first pass (or a duplicate name, checked before). -/
+theorem final_reported_normal (C : ClassInfo) (S : List Spec) (s : Spec) (hs : s ∈ S) (hsm : s.modifying = false)
     (p : String) (k : Nat) (hp : (p, k) ∈ s.prios) (hf : p ∈ C.finals) :
     ∃ e, resolve C S = .error e ∧ (e = .dupName ∨ e = .finalProp ∨ e = .tie) := by
   apply stage2_defect
@@ -256,6 +250,42 @@ theorem final_reported_partial (C : ClassInfo) (S : List Spec) (s : Spec) (hs : 
   have hc : (⟨s.name, s.modifying, p, k⟩ : Cand) ∈ cands (normalOf S) :=
     mem_cands.mpr ⟨s, List.mem_filter.mpr ⟨hs, by simp [hsm]⟩, rfl, rfl, hp⟩
   exact h1 _ hc hf
+
+/-- **Final properties.** Directly specifying a derived (final) property -- with *any* specifier of the list,
+modifying or not (since /repo commit 5766576b the modifying pass makes the check too; the former
+`final_reported_partial` needed `s.modifying = false`) -- is always an error, wherever the specifier stands:
+resolution stops in the assignment phase, before anything is ordered or evaluated.  The kind reported is that of
+the first defect met: duplicate name, final property, tie, or (hand-built lists with several modifying
+specifiers only) "modified twice". -/
+theorem final_reported (C : ClassInfo) (S : List Spec) (s : Spec) (hs : s ∈ S)
+    (p : String) (k : Nat) (hp : (p, k) ∈ s.prios) (hf : p ∈ C.finals) :
+    ∃ e, resolve C S = .error e ∧ (e = .dupName ∨ e = .finalProp ∨ e = .tie ∨ e = .modifiedTwice) := by
+  cases hsm : s.modifying with
+  | false =>
+    obtain ⟨e, he, h⟩ := final_reported_normal C S s hs hsm p k hp hf
+    exact ⟨e, he, by rcases h with h | h | h <;> simp [h]⟩
+  | true =>
+    cases ha : assignPhase C S with
+    | ok pre =>
+      exfalso
+      obtain ⟨_, ns, ms, _, hm, _⟩ := assignPhase_ok ha
+      exact modPass_ok_nofinal _ hm s (List.mem_filter.mpr ⟨hs, by simp [hsm]⟩) (p, k) hp hf
+    | error e =>
+      refine ⟨e, by unfold resolve; rw [ha], ?_⟩
+      rcases assignPhase_error ha with ⟨h, _⟩ | ⟨_, e', hn, rfl⟩ | ⟨_, h | h⟩
+      · simp [h]
+      · rcases normalPass_error _ (normalOf_normal S) (NInvF_nil C.finals) hn with ⟨h, _⟩ | ⟨h, _⟩ <;> simp [h]
+      · simp [h]
+      · simp [h]
+
+/-- non-vacuity of `final_reported` for a modifying specifier: `on` (modifying) would specify the final
+`parentOrientation`; the hypotheses hold (that the error is the final-property error itself is
+`regression_final_by_modifier` in `C06Perm`). -/
+example : ∃ e, resolve ⟨[("position", []), ("parentOrientation", []), ("baseOffset", [])], ["parentOrientation"]⟩
+      [⟨"On", [("position", 1), ("parentOrientation", 2)], ["baseOffset"], true, ["position"]⟩] = .error e ∧
+      (e = .dupName ∨ e = .finalProp ∨ e = .tie ∨ e = .modifiedTwice) :=
+  final_reported _ _ ⟨"On", [("position", 1), ("parentOrientation", 2)], ["baseOffset"], true, ["position"]⟩
+    (by simp) "parentOrientation" 2 (by simp) (by simp)
 
 /-- **Ties.** Two different non-modifying specifiers giving a property the same priority are always an
 error, wherever they stand in the list. -/
@@ -361,7 +391,7 @@ theorem resolve_never_fuel (C : ClassInfo) (S : List Spec) : resolve C S ≠ .er
     · cases h1
     · have := normalPass_error_stage _ (normalOf_normal S) he
       simp [stage] at this
-    · cases h3
+    · rcases h3 with h3 | h3 <;> cases h3
   · have hc := nodes_closed (assignPhase_ok hpre)
     unfold orderPhase at ho
     split at ho
@@ -373,13 +403,13 @@ theorem resolve_never_fuel (C : ClassInfo) (S : List Spec) : resolve C S ≠ .er
     · cases ho
 
 /-- **The error kinds mean what they say.**
-* `finalProp`: some non-modifying specifier of the list specifies a final property;
+* `finalProp`: some specifier of the list (modifying or not) names a final property;
 * `tie`: two non-modifying specifiers (or one whose priorities repeat a pair -- impossible for a
   Python dictionary) give some property the same priority;
 * `modifiedTwice`: there is a modifying specifier in the list;
 * `missingDep`: some evaluated specifier requires a property that is neither specified nor defaulted. -/
 theorem error_kinds_sound (C : ClassInfo) (S : List Spec) :
-    (resolve C S = .error .finalProp → ∃ s ∈ S, s.modifying = false ∧ ∃ pk ∈ s.prios, pk.1 ∈ C.finals) ∧
+    (resolve C S = .error .finalProp → ∃ s ∈ S, ∃ pk ∈ s.prios, pk.1 ∈ C.finals) ∧
     (resolve C S = .error .tie → ∃ s ∈ S, ∃ t ∈ S, s.modifying = false ∧ t.modifying = false ∧
         ∃ pk, pk ∈ s.prios ∧ pk ∈ t.prios ∧ (s.name ≠ t.name ∨ ¬ s.prios.Nodup)) ∧
     (resolve C S = .error .modifiedTwice → ∃ M ∈ S, M.modifying = true) ∧
@@ -393,9 +423,24 @@ theorem error_kinds_sound (C : ClassInfo) (S : List Spec) :
       · rcases normalPass_error _ (normalOf_normal S) (NInvF_nil C.finals) he with ⟨_, c, hc, hf⟩ | ⟨h1, _⟩
         · obtain ⟨s, hs, _, _, hpk⟩ := mem_cands.mp hc
           obtain ⟨hs1, hs2⟩ := List.mem_filter.mp hs
-          exact ⟨s, hs1, by simpa using hs2, _, hpk, hf⟩
+          exact ⟨s, hs1, _, hpk, hf⟩
         · cases h1
-      · cases h3
+      · unfold assignPhase at ha
+        split at ha
+        · cases ha
+        · split at ha
+          · rename_i e' he
+            cases ha
+            rcases normalPass_error _ (normalOf_normal S) (NInvF_nil C.finals) he with ⟨_, c, hc, hf⟩ | ⟨h1, _⟩
+            · obtain ⟨s, hs, _, _, hpk⟩ := mem_cands.mp hc
+              exact ⟨s, (List.mem_filter.mp hs).1, _, hpk, hf⟩
+            · cases h1
+          · split at ha
+            · rename_i e' hm
+              cases ha
+              obtain ⟨s, hs, pk, hpk, hf⟩ := modPass_finalProp_sound _ hm
+              exact ⟨s, (List.mem_filter.mp hs).1, pk, hpk, hf⟩
+            · cases ha
     · have := orderPhase_error_stage ho; simp [stage] at this
   · intro h
     rcases resolve_error h with ha | ⟨pre, _, ho⟩
@@ -420,7 +465,7 @@ theorem error_kinds_sound (C : ClassInfo) (S : List Spec) :
             obtain ⟨hs1, hs2⟩ := List.mem_filter.mp hs
             obtain ⟨ht1, ht2⟩ := List.mem_filter.mp ht
             exact hcon ⟨s, hs1, t, ht1, by simpa using hs2, by simpa using ht2, pk, hpk, hpk', Or.inl hne⟩
-      · cases h3
+      · rcases h3 with h3 | h3 <;> cases h3
     · have := orderPhase_error_stage ho; simp [stage] at this
   · intro h
     rcases resolve_error h with ha | ⟨pre, _, ho⟩
@@ -449,7 +494,7 @@ theorem error_kinds_sound (C : ClassInfo) (S : List Spec) :
       · cases h1
       · have := normalPass_error_stage _ (normalOf_normal S) he
         simp [stage] at this
-      · cases h3
+      · rcases h3 with h3 | h3 <;> cases h3
     · refine ⟨pre, hpre, ?_⟩
       have hA := assignPhase_ok hpre
       have hc := nodes_closed hA
